@@ -45,7 +45,7 @@ def _hash(flags):
 
 def build(asan=False, jobs=16, verbose=False):
     """returns the path of the driver executable built from the current working tree"""
-    flags = ["-std=c++11", "-O1", "-g0", "-fPIC", '-DVERSION_INFO="1.4.0"', "-w",
+    flags = ["-std=c++11", "-O1", "-g0", "-fPIC", '-DVERSION_INFO="1.4.0"', "-w", "-DAKV_NATIVE=2",
              "-I" + os.path.join(NATIVE, "stub"), "-I" + os.path.join(cast.REPO, "include")]
     if asan:
         flags += ASAN
@@ -61,7 +61,7 @@ def build(asan=False, jobs=16, verbose=False):
         for _, d in old[:-3]:
             shutil.rmtree(os.path.join(root, d), ignore_errors=True)
     os.makedirs(outdir, exist_ok=True)
-    srcs = sources() + [os.path.join(NATIVE, "driver.cpp")]
+    srcs = sources() + sorted(glob.glob(os.path.join(NATIVE, "*.cpp")))
 
     def comp(src):
         rel = os.path.relpath(src, cast.REPO if src.startswith(cast.REPO) else NATIVE)
